@@ -13,7 +13,7 @@ NOT_APPLICABLE = {
     'C18': 'privacy is a property of rendered text built inline in render functions from formatted strings; no contract on those functions is expressible with the installed verifiers.',
     'C20': 'schedule property over threads sharing parking_lot::RwLock<State>: Kani has no thread support and Verus reasons about locks only through its own vstd::rwlock permission types, which the real code does not use (rewriting onto them would be proving a model).',
 }
-for _p in ('C02','C11','C15','C16'):
+for _p in ('C02','C11','C15'):
     NOT_APPLICABLE[_p] = 'check under construction in this session (see DESIGN.md section 3 for the planned contracts); not claimed until its obligations are discharged by bin/check'
 
 import re as _re
@@ -115,6 +115,16 @@ PROPS = {
         'units': ['core_strategy', 'core_state'],
         'assumptions': [],
         'explanation': 'hop table',
+    },
+    'C16': {
+        'level': 'proof',
+        'technique': 'Verus contracts on cfg_layer/cfg_layer_opt/cfg_layer_bool_flag and on Builder::build against the strategy\'s own precondition cfg_ok',
+        'level_text': 'The three layering functions return the CLI value if given, else the file value, else the default, for every type and value. Builder::build returns Ok only for configurations satisfying cfg_ok - textually the precondition under which unit core_strategy proves that probe_data never reaches unimplemented!() and unit core_state proves ttl-1 indexing safe - accepts every such configuration, and reports everything else as Error::BadConfig.',
+        'level_note': 'NOT covered (not applicable within C16): that each of the ~90 options in TrippyConfig::build_config is wired to the right (args.X, file.X, DEFAULT_X) triple - clap/serde generated types, anyhow, strings. Trusted: Tracer::new -> TracerInner -> make_strategy_config copy the builder fields unchanged (field-by-field copies, not under contract).',
+        'units': ['tui_layer', 'core_builder', 'core_strategy'],
+        'assumptions': [],
+        'not_applicable_parts': ['option wiring in TrippyConfig::build_config'],
+        'explanation': 'option precedence and builder validation',
     },
     'C19': {
         'level': 'proof',
